@@ -97,3 +97,27 @@ Section Prune.
                             end) (p_sample p) in
     set_samples (set_locations p ls) ss.
 End Prune.
+
+(* ---------------------------------------------------------------- histories
+   Several frame-dropping operations applied one after the other to the SAME profile object
+   (the driver's command-line path: fetchProfiles applies drop_frames/keep_frames, generateReport
+   then applies prune_from to the object it was handed).  The Go operations keep no state between
+   calls (their tables are local maps), so a history is the plain composition of the models. *)
+Inductive pstep :=
+| SPrune (drop : string) (keep : option string)
+| SPruneFrom (re : string)
+| SRemoveUn.                      (* RemoveUninteresting with its error ignored, as fetchProfiles does *)
+
+Section History.
+  Variable M : string -> string -> bool.
+  Variable V : string -> bool.
+
+  Definition run_step (p : profile) (st : pstep) : profile :=
+    match st with
+    | SPrune d k => prune M p d k
+    | SPruneFrom re => prune_from M p re
+    | SRemoveUn => match remove_uninteresting M V p with Some q => q | None => p end
+    end.
+
+  Definition run_steps (p : profile) (sts : list pstep) : profile := fold_left run_step sts p.
+End History.
